@@ -222,3 +222,42 @@ TEXT["C05"] = dict(
     note="Partial by nature: totality of the Rust parsers is established by running them on structured mutants (sampling), not by proof. Eight fix commits in /repo (one per crate) removed every crash the run found: header-controlled allocations up to 85 GB, process aborts, arithmetic overflows, a third-party decoder panic reachable through an unchecked header byte. Three more (D60 water instances larger than a cell, D61 .anim section shorter than its header, D62 unvalidated WDB2/WDB5 headers: 4 GiB allocation abort) after seeds for those formats were added. Theorems also bound what the patch decoders can produce: rle_output_bounded / bsd0_output_bounded (C08) and sparse_output_bounded (C03).",
     technique="Lean 4 proof (fuel sufficiency for the header scan, size accounting for the chunk walk) + supervised structure-aware mutation testing with allocation accounting",
 )
+
+# ---- session 3 additions (kept as edits of the texts above so that the originals stay readable) ----
+def _ins(pid, key, before, text):
+    v = TEXT[pid][key]
+    assert before in v, (pid, key, before)
+    TEXT[pid][key] = v.replace(before, text + before, 1)
+def _rep(pid, key, old, new):
+    v = TEXT[pid][key]
+    assert old in v, (pid, key, old)
+    TEXT[pid][key] = v.replace(old, new, 1)
+
+_ins("C08", "text", "Tied to the code by stateful differential execution",
+     "The rest of patch_chain.rs is modelled too (Model.C08Read): the hash map rebuild_file_map fills with or_insert answers exactly "
+     "'first archive in chain order that lists the key' (filemap_is_first_match, a refinement of the map to lookup); the listing is the "
+     "union of the archives' names, each once, ascending (listing_is_union); whatever a read through a patch entry returns is the base "
+     "itself or matches digest and size of the HIGHEST-priority patch version, every archive's patch version having been read and parsed - "
+     "an unreadable one is an error, never skipped (patched_read_verified, unreadable_patch_is_error). ")
+_rep("C08", "note", "patch entries inside chains not generated (builder cannot emit them); ",
+     "patch entries inside chains are made by flagging builder output (one and two patch levels over a base); ")
+TEXT["C08"]["note"] += (" Two defects repaired (D68: an unparseable patch entry was skipped and the unpatched base returned as Ok - found when "
+     "readPatched had to say what an unreadable patch version means; D69: the chain folded names with Unicode upper-casing while archives "
+     "fold ASCII only, so names differing in the case of a non-ASCII letter were sent to the wrong archive).")
+_rep("C08", "technique", "refinement to first-match lookup)",
+     "refinement of the or_insert file map to first-match lookup, union / nodup / sorted listing, last-applied-patch digest by induction over the patch list)")
+_ins("C01", "text", "Below it the carrier theorems",
+     "THE HEADER, V1-V4 (Model.C01Header = MpqHeader::read_with_limits with every check of validate_header_security + builder "
+     "write_header, over the generic fixed-layout record codec Lib.Record): header_roundtrip (every well-formed header of every version is "
+     "read back exactly from the writer's bytes) and header_accepts_only_wellformed (whatever the reader accepts passed every security "
+     "check and the file starts with exactly the writer's bytes for it - a second write is byte-identical). ")
+_ins("C16", "text", "Tied to the code by",
+     "The HEADER itself is modelled field by field in the parser's order (Model.C16Header over Lib.Record, with the parser's "
+     "normalisations): header_roundtrip (encode_header -> parse_header is the identity on every normal BLP0/1/2 header) and header_size "
+     "(28/156/148 bytes, what the reader skips). ")
+_ins("C19", "text", "Tied to the code by",
+     "CALLER BUFFERS (Model.C19Buf): SFileGetArchiveName writes path+NUL only if it fits buffer_size and fails exactly when it does not "
+     "(archive_name_within_buffer), SFileGetFileName writes at most MAX_PATH bytes ending in NUL for a name of any length "
+     "(file_name_within_max_path), the find data's name array is filled with exactly 260 bytes ending in NUL with szPlainName inside it "
+     "(find_data_within_array). ")
+
